@@ -17,7 +17,7 @@ package bttest
 
 //@ func fromProto
 //@   property C17 C20
-//@   ensures rowOK(result) && fresh(result)
+//@   ensures rowOK(result) && rowFresh(result)
 //@   ensures famSep(result.Families) && colSep(result)
 //@   ensures ufb_rowEncDesc(buf) ==> rowDesc(result)
 //@   ensures bytesEq(result.Key, ufs_rowKey(buf))
@@ -70,28 +70,28 @@ package bttest
 //@   property C17 C01 C06 C20
 //@   requires iterator != nil
 //@   modifies ghost(scanOps)
-//@   callback iterator assume rowRep(arg0) && fresh(arg0)
+//@   callback iterator assume rowRep(arg0) && rowFresh(arg0)
 //@   ensures scanAll(old(scanOps) + 1)
 
 //@ func (b btreeRows) AscendRange
 //@   property C17 C01 C06 C20
 //@   requires iterator != nil
 //@   modifies ghost(scanOps)
-//@   callback iterator assume rowRep(arg0) && fresh(arg0)
+//@   callback iterator assume rowRep(arg0) && rowFresh(arg0)
 //@   ensures scanRange(old(scanOps) + 1, greaterOrEqual, lessThan)
 
 //@ func (b btreeRows) AscendLessThan
 //@   property C17 C01 C06 C20
 //@   requires iterator != nil
 //@   modifies ghost(scanOps)
-//@   callback iterator assume rowRep(arg0) && fresh(arg0)
+//@   callback iterator assume rowRep(arg0) && rowFresh(arg0)
 //@   ensures scanUpTo(old(scanOps) + 1, lessThan)
 
 //@ func (b btreeRows) AscendGreaterOrEqual
 //@   property C17 C01 C06 C20
 //@   requires iterator != nil
 //@   modifies ghost(scanOps)
-//@   callback iterator assume rowRep(arg0) && fresh(arg0)
+//@   callback iterator assume rowRep(arg0) && rowFresh(arg0)
 //@   ensures scanFrom(old(scanOps) + 1, greaterOrEqual)
 
 //@ func (b btreeRows) adaptIterator
@@ -135,7 +135,7 @@ package bttest
 //@   property C17 C03 C20
 //@   requires iterator != nil
 //@   modifies *
-//@   callback iterator assume rowRep(arg0) && fresh(arg0)
+//@   callback iterator assume rowRep(arg0) && rowFresh(arg0)
 //@   callback iterator stops
 //@   ensures rng == nil ==> scanAll(old(scanOps) + 1)
 //@   ensures rng != nil ==> bytesEq(ufs_scanStart(old(scanOps) + 1), old(rng.Start)) && ufb_scanHasLimit(old(scanOps) + 1) == !isnil(old(rng.Limit))
@@ -145,28 +145,28 @@ package bttest
 //@   property C17 C01 C06 C20
 //@   requires iterator != nil
 //@   modifies *
-//@   callback iterator assume rowRep(arg0) && fresh(arg0)
+//@   callback iterator assume rowRep(arg0) && rowFresh(arg0)
 //@   ensures scanAll(old(scanOps) + 1)
 
 //@ func (rows *leveldbRows) AscendRange
 //@   property C17 C01 C06 C20
 //@   requires iterator != nil
 //@   modifies *
-//@   callback iterator assume rowRep(arg0) && fresh(arg0)
+//@   callback iterator assume rowRep(arg0) && rowFresh(arg0)
 //@   ensures scanRange(old(scanOps) + 1, greaterOrEqual, lessThan)
 
 //@ func (rows *leveldbRows) AscendLessThan
 //@   property C17 C01 C06 C20
 //@   requires iterator != nil
 //@   modifies *
-//@   callback iterator assume rowRep(arg0) && fresh(arg0)
+//@   callback iterator assume rowRep(arg0) && rowFresh(arg0)
 //@   ensures scanUpTo(old(scanOps) + 1, lessThan)
 
 //@ func (rows *leveldbRows) AscendGreaterOrEqual
 //@   property C17 C01 C06 C20
 //@   requires iterator != nil
 //@   modifies *
-//@   callback iterator assume rowRep(arg0) && fresh(arg0)
+//@   callback iterator assume rowRep(arg0) && rowFresh(arg0)
 //@   ensures scanFrom(old(scanOps) + 1, greaterOrEqual)
 
 // Clear closes the DB and replaces it by a new, empty one (newFunc(true)): the only modelled state it writes is
